@@ -1,5 +1,14 @@
 """C28 — ParseError helpers transform and display errors as documented."""
 LEVEL = "proof"
+MANIFEST = {
+    "category": "proof",
+    "technique": "Lean 4 theorems over a hand model of ParseError + differential correspondence with lalrpop_util",
+    "text": "All helper laws (map_location incl. FnMut call order, map_token, map_error, From, Display incl. the "
+            "'Expected one of a, b or c' format for lists of any length) are Lean theorems about Model/Err.lean for all "
+            "values; the model is tied to lalrpop-util by an exhaustive small-domain + random differential run each check.",
+    "note": "Trusted: Lean kernel (axioms propext/Classical.choice/Quot.sound only), the hand model's fidelity as far as the "
+            "correspondence run exercises it, Rust's integer Display for locations.",
+}
 MODULE = "LalrpopModel.Props.C28"
 THEOREMS = [
     "LalrpopModel.Err.map_location_spec", "LalrpopModel.Err.map_location_fnmut_order",
